@@ -657,6 +657,19 @@ V("s-parse-formula-cached", "silent", ["C10"], WR, "def parse_formula(string: st
 V("f-parse-ckb-cached", "fire", ["C10"], WR, "def parseCKB(ckbs_string):\n", "@functools.lru_cache(maxsize=64)\ndef parseCKB(ckbs_string):\n",
   more=((WR, "import logging\nimport os\n", "import functools\nimport logging\nimport os\n", 0),), note="round 5: the parsed base is mutable and handed out again")
 
+MV = "parser/myVisitor.py"
+V("f-wrap-template-twice", "fire", ["C10"], WR, "{{ \\n {querystring}\\n }}", "{{ \\n {querystring}\\n {querystring}\\n }}", rules={"C10": ["WRAP.chain"]}, note="round 7: the query text is pasted into the template twice")
+V("f-wrap-template-trailing", "fire", ["C10"], WR, "{{ \\n {querystring}\\n }}", "{{ \\n {querystring}\\n }} // {querystring}", rules={"C10": ["WRAP.chain"]}, note="the text a second time behind the block")
+V("s-wrap-template-layout", "silent", ["C10"], WR, "signature \\n a,b,c,d,e,f \\n conditionals \\n Querydummy \\n {{ \\n {querystring}\\n }}", "signature\\n a, b\\nconditionals\\nQ{{\\n{querystring}\\n}}\\n", note="another layout and signature of the dummy base")
+V("f-wrap-route-both-keywords", "fire", ["C10"], WR, 'if "signature" and "conditionals" in string:', 'if "signature" in string and "conditionals" in string:', rules={"C10": ["REJECT.template"]}, note="round 7 (C10-17): texts with the keyword conditionals reach the template")
+V("s-wrap-route-keyword-only", "silent", ["C10"], WR, 'if "signature" and "conditionals" in string:', 'if "conditionals" in string:', note="what the test always meant")
+V("f-wrap-ckbs-signature-late", "fire", ["C10"], MV, "        self.signature = self.visit(ctx.signature())\n        self.sigcheck = []\n        ckbs = [self.visit(i) for i in ctx.conditionals()]\n",
+  "        self.sigcheck = []\n        ckbs = [self.visit(i) for i in ctx.conditionals()]\n        self.signature = self.visit(ctx.signature())\n", rules={"C10": ["WRAP.chain"]}, note="the blocks are built before the signature is read")
+V("f-wrap-ckbs-keyed-by-name", "fire", ["C10"], MV, "            order.update({(ckb.name, newid): ckb})\n", "            order.update({ckb.name: ckb})\n", rules={"C10": ["WRAP.chain"]}, note="two blocks of one name: the later replaces the earlier")
+V("s-wrap-ckbs-plain-dict", "silent", ["C10"], MV, "        order = OrderedDict()\n", "        order = {}\n", note="a dict keeps insertion order")
+V("f-wrap-base-signature-literal", "fire", ["C10"], MV, "        bb = BeliefBase(self.signature, conditionals, name)\n", "        bb = BeliefBase(sorted(self.sigcheck), conditionals, name)\n", rules={"C10": ["WRAP.chain"]}, note="the atoms that occur instead of the declared ones")
+V("f-wrap-parseckb-normalise", "fire", ["C10"], WR, "    tree = _getParseTree(ckbs_string)\n", "    tree = _getParseTree(\"\\n\".join(l.rstrip() for l in ckbs_string.splitlines()) + \"\\n\")\n", rules={"C10": ["REJECT.input"]}, note="round 7 (C10-18): splitlines splits at more than CR and LF")
+
 
 def main():
     hv = os.path.join(HERE, "harvested.json")
